@@ -963,11 +963,11 @@ def front_door_mirrors(ctx: Ctx, py: PyProgram, rs: RustProgram) -> None:
     class Chip(_HostObj):
         def read_data(self) -> Any:
             log.append(("read_data", self.idx))
-            return ("data", self.idx)
+            return 0x10 + self.idx
 
         def read_instruction_status(self) -> Any:
             log.append(("status", self.idx))
-            return ("status", self.idx)
+            return 0x40 + self.idx
 
     def run_(name: str, args: dict) -> tuple:
         me = ClassHost(py, mod, cls, pipeline=Pipe(), chips=[Chip(idx=0), Chip(idx=1)], cs_both_count=0, cs_left_count=0, cs_right_count=0, _cpu=None)
@@ -996,4 +996,15 @@ def front_door_mirrors(ctx: Ctx, py: PyProgram, rs: RustProgram) -> None:
                         ctx.violation("C15.1/front-door-mirror", key_of(CW_PY, f"HD61202Controller.{name}", f"window {lo_:#06x}: mirrored address treated differently"),
                                       f"HD61202Controller.{name} at {addr:#06x} does {got[1] or 'nothing'} (returns {got[0]!r}) but at the canonical {canon:#06x} it does {want[1] or 'nothing'} (returns {want[0]!r}): "
                                       f"the whole window {lo_:#06x}-{hi_:#06x} is routed to the controller and only the low nibble is decoded, so the access is dropped", f"{CW_PY}:{cls.methods[name].lineno}")
+    # a read drives the bus from one chip: with both chips selected nothing is returned and no chip is touched (a status read clears
+    # BUSY, so touching both changes what the next per-chip status read sees); the Rust LcdController::read returns None there
+    for lo_, _hi in sorted(wins):
+        for nib in range(16):
+            n += 1
+            ret, lg = run_("read", {"address": lo_ + nib, "cpu_pc": 0})
+            if len(lg) > 1 or (len(lg) == 0 and ret is not None):
+                ctx.violation("C15.1/read-one-chip", key_of(CW_PY, "HD61202Controller.read", "a read touches more than one chip"),
+                              f"HD61202Controller.read({lo_ + nib:#06x}) performs {lg} and returns {ret!r}: a read with both chips selected must return nothing and leave both chips alone "
+                              "(it would clear BUSY on both; the Rust controller returns None)", f"{CW_PY}:{cls.methods['read'].lineno}")
+                break
     ctx.instance("C15.1/front-door-mirror", "mirrored LCD window addresses x {instruction write, data write, read}: controller front door behaves like window base + low nibble", n, 300)
